@@ -28,12 +28,24 @@ type solverSpec struct {
 	args func(file string, timeoutS int) []string
 }
 
+// A small portfolio: quantified goals sit on the edge of what e-matching finds, and which
+// configuration finds the proof first varies with irrelevant details of the query text. The first
+// definite answer wins; two definite answers that disagree are an error.
 var solvers = []solverSpec{
 	{"z3-new-5.1.0", func(f string, t int) []string { return []string{"z3-new", fmt.Sprintf("-T:%d", t), f} }},
 	{"cvc5-1.0", func(f string, t int) []string {
 		return []string{"cvc5", "--strings-exp", "--produce-models", fmt.Sprintf("--tlimit=%d", t*1000), f}
 	}},
 	{"z3-4.8.12", func(f string, t int) []string { return []string{"z3", fmt.Sprintf("-T:%d", t), f} }},
+	{"z3-new-5.1.0/arith2", func(f string, t int) []string {
+		return []string{"z3-new", fmt.Sprintf("-T:%d", t), "smt.arith.solver=2", f}
+	}},
+	{"cvc5-1.0/no-cbqi", func(f string, t int) []string {
+		return []string{"cvc5", "--strings-exp", "--produce-models", "--no-cbqi", fmt.Sprintf("--tlimit=%d", t*1000), f}
+	}},
+	{"z3-4.8.12/arith2", func(f string, t int) []string {
+		return []string{"z3", fmt.Sprintf("-T:%d", t), "smt.arith.solver=2", f}
+	}},
 }
 
 // Query renders the SMT query of an obligation.
@@ -170,6 +182,16 @@ var fileMu sync.Mutex
 // Solve races the installed solvers on the query. If all is true every solver is run to
 // completion and disagreement between definite answers is reported as an error.
 func Solve(query string, timeoutS int, all bool, probes []Probe) SolveResult {
+	return solveWith(solvers, query, timeoutS, all, probes)
+}
+
+// SolveQuick asks only the first solver: for reachability witnesses, where only a fast definite
+// answer is of interest.
+func SolveQuick(query string, timeoutS int) SolveResult {
+	return solveWith(solvers[:1], query, timeoutS, false, nil)
+}
+
+func solveWith(solvers []solverSpec, query string, timeoutS int, all bool, probes []Probe) SolveResult {
 	fileMu.Lock()
 	fileSeq++
 	file := filepath.Join(scratchDir(), fmt.Sprintf("q%d.smt2", fileSeq))
